@@ -91,6 +91,19 @@ def falsify(ctx, deep=False):
             worst[clause] = max(worst.get(clause, -1e300), err if math.isfinite(err) else 1e300)
             if not (err <= tol):
                 viols.append({"clause": clause, "error": err, "tolerance": tol, "input": inp})
+    # propagations of same-shape fields done at the same time from a thread pool are the propagations done one after the other
+    import common as _common
+    npr_ = numpy.random.default_rng(rng.getrandbits(32))
+    fields = [oc.rand_field(npr_, 32) for _ in range(8)]
+    def _mkc(k):
+        U_ = fields[k]
+        fns = [lambda: op.angularSpectrum(U_, 1e-6, 1e-3, 2e-3, 4.0 + k), lambda: op.oneStepFresnel(U_, 1e-6, 1e-3, 3.0 + k),
+               lambda: op.twoStepFresnel(U_, 1e-6, 1e-3, 1.5e-3, 2.0 + k), lambda: op.lensAgainst(U_, 1e-6, 1e-3, 1.0 + k)]
+        return fns[k % 4]
+    nbad = _common.threads_equal([_mkc(k) for k in range(8)], workers=8, repeats=4)
+    worst["concurrent propagations from a thread pool give the sequential results"] = float(nbad)
+    if nbad:
+        viols.append({"clause": "concurrent propagations from a thread pool give the sequential results", "error": float(nbad), "tolerance": 0.0, "input": {"threads": True}})
     seen, keep = set(), []
     for v in viols:
         if v["clause"] not in seen:
@@ -103,6 +116,8 @@ def replay(payload):
     if not v:
         print("replay file names a proof/correspondence failure, no input:", payload.get("proof", {}).get("failed_at"))
         return False
+    if v["input"].get("threads"):
+        print("  thread-pool clause: re-run ./check C10"); return False
     bad = [(c, e, t) for c, e, t in property_checks(v["input"]) if not (e <= t) and c == v["clause"]]
     for c, e, t in bad:
         print("  clause %r: error %g > %g" % (c, e, t))
